@@ -33,4 +33,4 @@ PY
     echo -e "$id\t$p\trc=$rc\tobligation-failed=$ded\tobligation+native-witness=$nat\tbounded=$bnd\t$first"
     rm -rf "$work/out/replays"
   done
-done | tee seeded/MATRIX.tsv
+done | tee "${MATRIX_OUT:-seeded/MATRIX.tsv}"
